@@ -29,9 +29,18 @@ def log(*a):
 
 
 # ----------------------------------------------------------------------------- building
+def job_spec(job):
+    sp = dict(job.get("build", {}))
+    sp["name"] = job["harness"]; sp["variant"] = job.get("variant", "a")
+    return sp
+
+
 def build_job(job):
-    kw = dict(job.get("build", {}))
-    return B.build_harness(job["harness"], job.get("variant", "a"), **kw)
+    return B.build_many([job_spec(job)])[0]
+
+
+def build_jobs(jobs):
+    return B.build_many([job_spec(j) for j in jobs])
 
 
 # ----------------------------------------------------------------------------- running
@@ -88,21 +97,10 @@ def load_known():
 
 
 def match_known(pid, sig, known):
-    """key is class|oracle|component with '*' wildcards (prefix match if it ends with *)"""
+    """key is an fnmatch pattern over the signature 'class|oracle|component' (no spaces: use ? for a space)"""
+    import fnmatch
     for k in known:
-        if k.get("property") != pid:
-            continue
-        want = k.get("key", "").split("|")
-        have = sig.split("|")
-        ok = len(want) == len(have)
-        for w, h in zip(want, have):
-            if w == "*":
-                continue
-            if w.endswith("*"):
-                ok = ok and h.startswith(w[:-1])
-            else:
-                ok = ok and (w == h)
-        if ok:
+        if k.get("property") == pid and fnmatch.fnmatchcase(sig, k.get("key", "")):
             return k
     return None
 
@@ -206,9 +204,7 @@ def check(pid, tier, runs=None, budget_s=None, base_seed=None):
     os.makedirs(WORK, exist_ok=True); os.makedirs(REPLAYS, exist_ok=True); os.makedirs(EVID, exist_ok=True)
     jobs = prop["jobs"]
     tb = time.time()
-    exes = []
-    for j in jobs:
-        exes.append(build_job(j))
+    exes = build_jobs(jobs)
     log("[%s] build %.1fs" % (pid, time.time() - tb))
     recdir = tempfile.mkdtemp(prefix="rec-%s-" % pid, dir=WORK)
     seed0 = (base_seed << 32) & 0xFFFFFFFFFFFFFFFF
@@ -226,6 +222,7 @@ def check(pid, tier, runs=None, budget_s=None, base_seed=None):
     deadline = t0 + budget_s
     stop_new = False
     viol_sigs = {}
+    known_pre = load_known()
 
     def harvest(p, ji):
         out, _ = p.communicate()
@@ -256,7 +253,7 @@ def check(pid, tier, runs=None, budget_s=None, base_seed=None):
             else:
                 harvest(p, ji)
         procs = still
-        if len(viol_sigs) >= 6:
+        if sum(1 for (_, sg) in viol_sigs if not match_known(pid, sg, known_pre)) >= 6:
             stop_new = True
         time.sleep(0.02)
     wall_search = time.time() - t0
@@ -269,7 +266,7 @@ def check(pid, tier, runs=None, budget_s=None, base_seed=None):
     for r in results:
         for k in r.get("known", []):
             key, _, txt = k.partition("\t")
-            kf = match_known(pid, "known|%s|" % key, known) or match_known(pid, key, known)
+            kf = match_known(pid, "known|%s|" % key, known)
             if kf:
                 known_hit.setdefault(kf["key"], kf)
             else:
@@ -468,9 +465,11 @@ def main():
         sys.exit(selftest_determinism(ids, a.seeds))
     if a.cmd == "build":
         ids = list(PROPS.keys()) if a.all or not a.ids else a.ids
+        alljobs = []
         for pid in ids:
-            for j in PROPS[pid]["jobs"]:
-                print(build_job(j))
+            alljobs += PROPS[pid]["jobs"]
+        for e in sorted(set(build_jobs(alljobs))):
+            print(e)
         sys.exit(0)
     ap.print_help(); sys.exit(2)
 
